@@ -52,7 +52,9 @@ def untraced():
 
 
 def is_concrete(c) -> bool:
-    return type(c) is int or type(c) is bool
+    # under tracing CrossHair makes type() lie about symbolics: ask with tracing off
+    with untraced():
+        return type(c) is int or type(c) is bool
 
 
 def pick(c, n: int) -> int:
